@@ -42,6 +42,7 @@ pub struct Inner {
     pub calls: u64,
     pub fault_at: Option<(u64, FaultMode)>,
     pub faults_injected: u64,
+    pub syncs: u64,
     pub closed: bool,
     pub read_only: bool,
     pub contract: Contract,
@@ -67,6 +68,7 @@ impl Store {
                 calls: 0,
                 fault_at: None,
                 faults_injected: 0,
+                syncs: 0,
                 closed: false,
                 read_only: false,
                 contract: Contract::default(),
@@ -130,6 +132,10 @@ impl Store {
     /// or the open failed)
     pub fn mark_done(&self) {
         self.inner.lock().unwrap().note("bdone", 0, 0);
+    }
+
+    pub fn syncs(&self) -> u64 {
+        self.inner.lock().unwrap().syncs
     }
 
     pub fn enable_calllog(&self) {
@@ -226,6 +232,7 @@ impl redb::StorageBackend for MemBackend {
         if g.read_only {
             g.contract.ro_mutations.push("sync_data".to_string());
         }
+        g.syncs += 1;
         if g.recording {
             g.log.push(Op::Sync);
         }
